@@ -178,6 +178,11 @@ func VerifHarness_Step_MarketPruneSellOrders() {
 	zz.Assert(zz.QLe(da.Escrowed, zz.QInt(0)), "C03 expiry only moves credits out of escrow")
 	zz.Assert(zz.QEq(da.Retired, zz.QInt(0)), "C03 expiry does not touch retired balances")
 	zz.Assert(zz.BankCalls() == 0, "C03 expiry moves no coins")
+	// C12: the quantity of every removed order of the account returns to its tradable balance
+	dOrders := zz.SumDelta(zzinv.TSellOrder, func(r *marketapi.SellOrder) zz.Q {
+		return zz.QIf(zz.And(zz.BytesEq(r.Seller, sk.Acct), r.BatchKey == sk.Batch), zz.QParse(r.Quantity), zz.QInt(0))
+	})
+	zz.Assert(zz.QEq(da.Tradable, zz.QNeg(dOrders)), "C12 the quantity of every removed order returns to the seller's tradable balance")
 	// C12: exactly the orders with 1ns <= expiration <= T disappear, all others are untouched
 	var o0, o1 marketapi.SellOrder
 	e0 := zz.OrmRow0(zzinv.TSellOrder, &o0, order)
